@@ -2,6 +2,7 @@
 min/prefix-mask/modular-add idioms, read/write sibling agreement, clear as last writer)."""
 
 from .common import *
+from . import excl
 from ..pm import pmatch, pat, find_all
 from ..term import subst
 from .C20 import resolve_comb
@@ -44,6 +45,7 @@ def check(ctx):
     for ex in comp.configs:
         cn = cfg_name(ex)
         w, r, p, c = (need_body(ex, n, "C15", comp.site) for n in ("write", "read", "peek", "clear"))
+        excl.exclusive(ctx, "C15", f"WideFifo[{cn}]", w, r)
         roles = _roles(ctx, comp, ex)
         if roles is None:
             continue
